@@ -122,6 +122,10 @@ func (r *run) observe() map[string]string {
 			obs[fmt.Sprintf("userdoc:%s/%v", cn, id)] = canonBSON(d)
 		}
 	}
+	r.noteVersions()
+	for k, h := range r.verHist {
+		obs["userdoc-versions:"+k] = strings.Join(h, " ")
+	}
 	var pubs []string
 	for _, p := range w.br.pubs {
 		var n notif
@@ -138,6 +142,28 @@ func (r *run) observe() map[string]string {
 		obs["requests:"+k] = fmt.Sprint(nreq[k])
 	}
 	return obs
+}
+
+// noteVersions records the version recorded in every user document after an event (scenario runs only).
+func (r *run) noteVersions() {
+	if r.verHist == nil {
+		r.verHist = map[string][]string{}
+	}
+	for _, d := range r.docsOf(schema.CollectionNameCollections) {
+		var cd schema.CollectionDoc
+		if decodeInto(d, &cd) != nil {
+			continue
+		}
+		for _, ud := range r.docsOf(cd.Name) {
+			id, _ := get(ud, "_id")
+			v, _ := get(ud, "_orda_ver_")
+			k := fmt.Sprintf("%s/%v", cd.Name, id)
+			s := fmt.Sprint(toInt(v))
+			if h := r.verHist[k]; len(h) == 0 || h[len(h)-1] != s {
+				r.verHist[k] = append(r.verHist[k], s)
+			}
+		}
+	}
 }
 
 func keyOfDUID(dts map[string]*dtInfo, duid string) string {
